@@ -102,6 +102,7 @@ func TestC09(t *testing.T) {
 		text, fam := genSuffixText(t, maxLen)
 		c := textCase{Text: text, Family: fam}
 		beginCase("C09", "", func() any { return c })
+		defer endCase() // also when rapid abandons the case half-way (fuzzing: input used up)
 		msg, bad := checkSuffix(text)
 		endCase()
 		if bad {
@@ -218,6 +219,7 @@ func TestC09Large(t *testing.T) {
 			n++
 			c := textCase{Family: fmt.Sprintf("large %s %d", name, sz)}
 			beginCase("C09", "large", func() any { return c })
+			defer endCase() // also when rapid abandons the case half-way (fuzzing: input used up)
 			msg, bad := checkSuffix(text)
 			endCase()
 			if bad {
